@@ -130,6 +130,11 @@ func (it *segmentIterator) next() (record, error) {
 
 	// Read key, value and checksum.
 	recordSize := encodedRecordSize(keySize + valueSize)
+	if int64(it.offset)+int64(recordSize) > it.f.size {
+		// The record doesn't fit in the rest of the file: a torn or corrupted record.
+		// Don't trust its sizes to allocate the buffer.
+		return record{}, io.ErrUnexpectedEOF
+	}
 	data := make([]byte, recordSize)
 	copy(data, kvSizeBuf)
 	if _, err := io.ReadFull(it.r, data[6:]); err != nil {
